@@ -97,6 +97,11 @@ def build_harness(ctx, race=False):
 
 REGEN = {}
 
+try:
+    FLOORS = json.load(open(os.path.join(ROOT, 'checklib', 'floors.json')))
+except (OSError, ValueError):
+    FLOORS = {}
+
 def regen_step(name):
     def deco(f):
         REGEN[name] = f
@@ -378,21 +383,41 @@ def correspond(ctx, fam, spec_mode=False, prop_mode=False, shrinkable=True):
         ctx.fail('corr', f'correspondence family {fam}: implementation and model differ on {ndiff} of {len(ops)} operations',
                  family=fam, op=o, impl=a, model=b)
     bad = []   # (op, impl, demanded) for every operation on which the property fails on the implementation
+    demanded_on = [False] * len(ops)   # the oracle (spec and/or prop) gave a verdict on this operation (not n/a)
     if spec_mode:
         t = time.time()
         spec = run_driver(ops, mode='--spec')
         ctx.timing[f'spec_{fam}'] = round(time.time() - t, 2)
         bad += [(o, a, s) for o, a, s in zip(ops, impl, spec) if s != 'n/a' and a != s]
         ctx.cov['families'][fam]['spec_checked'] = sum(1 for s in spec if s != 'n/a')
+        demanded_on = [d or s != 'n/a' for d, s in zip(demanded_on, spec)]
     if prop_mode:
         t = time.time()
         verdict = run_driver([o + '\t' + a for o, a in zip(ops, impl)], mode='--prop')
         ctx.timing[f'prop_{fam}'] = round(time.time() - t, 2)
         bad += [(o, a, v) for o, a, v in zip(ops, impl, verdict) if v not in ('n/a', 'ok')]
         ctx.cov['families'][fam]['prop_checked'] = sum(1 for v in verdict if v != 'n/a')
+        demanded_on = [d or v != 'n/a' for d, v in zip(demanded_on, verdict)]
     ctx.cov['families'][fam]['property_failures'] = len(bad)
+    before = dict(ctx.cov.get('attributed', {}))
     if bad:
         triage(ctx, fam, bad, dict(zip(ops, zip(impl, model))), spec_mode, prop_mode, shrinkable)
+    if spec_mode or prop_mode:
+        # honest accounting of what the oracle actually decided (audit X2): on how many generated operations the property
+        # was DEMANDED (a verdict other than n/a), on how many of those it HELD, how many failures were attributed to a
+        # listed open finding (model = implementation and class predicate), how many operations the oracle abstained on
+        after = ctx.cov.get('attributed', {})
+        attr = {k: after[k] - before.get(k, 0) for k in after if after[k] - before.get(k, 0)}
+        failing_ops = len(set(o for o, _, _ in bad))
+        dem = sum(demanded_on)
+        fv = ctx.cov['families'][fam]
+        fv['oracle'] = dict(demanded=dem, held=dem - failing_ops, failed=failing_ops, attributed_to_known_findings=attr,
+                            abstained_na=len(ops) - dem, demanded_fraction=round(dem / max(len(ops), 1), 4))
+        floor = FLOORS.get(ctx.prop, {}).get(fam)
+        if floor is not None and len(ops) and dem / len(ops) < floor:
+            # a property predicate that degrades to n/a must not pass silently
+            ctx.fail('tool', f'family {fam}: the property oracle gave a verdict on only {dem} of {len(ops)} operations '
+                             f'({dem / len(ops):.3f} < floor {floor}): the check no longer decides what it claims', family=fam)
     return ops, impl, model
 
 
@@ -519,6 +544,7 @@ def finish(ctx, spec, proof):
         samples=ctx.cov.get('samples', [])[:12] or [{'note': 'no operations run'}],
         families=fams, timing_s=ctx.timing,
         known_findings_reported=ctx.known,
+        attributed_to_known_findings=ctx.cov.get('attributed', {}),
     )
     if 'extra' in ctx.cov:
         coverage['extra'] = ctx.cov['extra']
